@@ -69,6 +69,9 @@ RowsGrowThenDdl == <<{0}, {2}, {2}, {1, 2}, {0}, {1, 2}, {1, 2}>>
 \* CREATE TABLE, whose own flush is torn
 ScriptSplitThenCreate == <<{"create"}, {"insert"}, {"insert"}, {"create"}, {"insert"}>>
 RowsSplitThenCreate == <<{0}, {3}, {1}, {0}, {1}>>
+\* a table grown until its internal root splits (three levels at capacities 3/3), three rows per statement
+ScriptGrowDeep == <<{"create"}, {"insert"}, {"insert"}, {"insert"}, {"insert"}>>
+RowsGrowDeep == <<{0}, {3}, {3}, {3}, {1, 2}>>
 RowsNone == <<>>
 RowsInsUpdSplit == <<{0}, {3}, {1}, {1}, {0}, {1}>>
 RowsInsDelSplit == <<{0}, {3}, {1}, {1}, {0}, {1}, {1}>>
